@@ -55,6 +55,7 @@ package antlr
 // T-ANTLR: the text of a parse-tree node is a function of the node; strconv (trusted/strconv.spec)
 //@ extern pure func antlr_GetText(c Ref) string
 //@ extern pure func antlr_SIMPLENAME(c Ref) Ref
+//@ extern pure func str_lower(a string) string
 //@ extern pure func antlr_RuleDescription(c Ref) Ref
 // unquoteString (a port of strconv.Unquote that also accepts single quotes) is outside the verified subset (byte-level append):
 // ASSUMED not to panic and to have no effect
@@ -414,7 +415,7 @@ package antlr
 //@   ensures sticky: old(thisListener.StopParse) ==> thisListener.StopParse
 //@   ensures rules: RInv(thisListener) && (old(thisListener.Grl) != nil ==> thisListener.Grl != nil)
 //@ func (thisListener *GruleV3ParserListener) EnterMulDivOperators(ctx) ()
-//@   serves C17 C20
+//@   serves C17 C20 C05
 //@   opt alloc=1
 //@   requires LInv(thisListener) && RInv(thisListener) && ctx != nil
 //@   nopanic
@@ -423,6 +424,8 @@ package antlr
 //@   ensures errorskept: errorsKept(thisListener)
 //@   ensures sticky: old(thisListener.StopParse) ==> thisListener.StopParse
 //@   ensures rules: RInv(thisListener) && (old(thisListener.Grl) != nil ==> thisListener.Grl != nil)
+// C05: the documented operator table - which token text selects which operator of the expression being built
+//@   ensures[C05,C17] optable: !old(thisListener.StopParse) && old(thisListener.Stack.length) > 0 && old(thisListener.Stack.top.value) != nil && typeof(old(thisListener.Stack.top.value)) == typeid(*ast.Expression) ==> (antlr_GetText(ctx) == "*" ==> as(old(thisListener.Stack.top.value), *ast.Expression).Operator == ast.OpMul) && (antlr_GetText(ctx) == "/" ==> as(old(thisListener.Stack.top.value), *ast.Expression).Operator == ast.OpDiv) && (antlr_GetText(ctx) == "%" ==> as(old(thisListener.Stack.top.value), *ast.Expression).Operator == ast.OpMod)
 //@ func (thisListener *GruleV3ParserListener) ExitMulDivOperators(ctx) ()
 //@   serves C17 C20
 //@   opt alloc=1
@@ -434,7 +437,7 @@ package antlr
 //@   ensures sticky: old(thisListener.StopParse) ==> thisListener.StopParse
 //@   ensures rules: RInv(thisListener) && (old(thisListener.Grl) != nil ==> thisListener.Grl != nil)
 //@ func (thisListener *GruleV3ParserListener) EnterAddMinusOperators(ctx) ()
-//@   serves C17 C20
+//@   serves C17 C20 C05
 //@   opt alloc=1
 //@   requires LInv(thisListener) && RInv(thisListener) && ctx != nil
 //@   nopanic
@@ -443,6 +446,8 @@ package antlr
 //@   ensures errorskept: errorsKept(thisListener)
 //@   ensures sticky: old(thisListener.StopParse) ==> thisListener.StopParse
 //@   ensures rules: RInv(thisListener) && (old(thisListener.Grl) != nil ==> thisListener.Grl != nil)
+// C05: the documented operator table - which token text selects which operator of the expression being built
+//@   ensures[C05,C17] optable: !old(thisListener.StopParse) && old(thisListener.Stack.length) > 0 && old(thisListener.Stack.top.value) != nil && typeof(old(thisListener.Stack.top.value)) == typeid(*ast.Expression) ==> (antlr_GetText(ctx) == "+" ==> as(old(thisListener.Stack.top.value), *ast.Expression).Operator == ast.OpAdd) && (antlr_GetText(ctx) == "-" ==> as(old(thisListener.Stack.top.value), *ast.Expression).Operator == ast.OpSub) && (antlr_GetText(ctx) == "|" ==> as(old(thisListener.Stack.top.value), *ast.Expression).Operator == ast.OpBitOr) && (antlr_GetText(ctx) == "&" ==> as(old(thisListener.Stack.top.value), *ast.Expression).Operator == ast.OpBitAnd)
 //@ func (thisListener *GruleV3ParserListener) ExitAddMinusOperators(ctx) ()
 //@   serves C17 C20
 //@   opt alloc=1
@@ -454,7 +459,7 @@ package antlr
 //@   ensures sticky: old(thisListener.StopParse) ==> thisListener.StopParse
 //@   ensures rules: RInv(thisListener) && (old(thisListener.Grl) != nil ==> thisListener.Grl != nil)
 //@ func (thisListener *GruleV3ParserListener) EnterComparisonOperator(ctx) ()
-//@   serves C17 C20
+//@   serves C17 C20 C05
 //@   opt alloc=1
 //@   requires LInv(thisListener) && RInv(thisListener) && ctx != nil
 //@   nopanic
@@ -463,6 +468,8 @@ package antlr
 //@   ensures errorskept: errorsKept(thisListener)
 //@   ensures sticky: old(thisListener.StopParse) ==> thisListener.StopParse
 //@   ensures rules: RInv(thisListener) && (old(thisListener.Grl) != nil ==> thisListener.Grl != nil)
+// C05: the documented operator table - which token text selects which operator of the expression being built
+//@   ensures[C05,C17] optable: !old(thisListener.StopParse) && old(thisListener.Stack.length) > 0 && old(thisListener.Stack.top.value) != nil && typeof(old(thisListener.Stack.top.value)) == typeid(*ast.Expression) ==> (antlr_GetText(ctx) == "<" ==> as(old(thisListener.Stack.top.value), *ast.Expression).Operator == ast.OpLT) && (antlr_GetText(ctx) == "<=" ==> as(old(thisListener.Stack.top.value), *ast.Expression).Operator == ast.OpLTE) && (antlr_GetText(ctx) == ">" ==> as(old(thisListener.Stack.top.value), *ast.Expression).Operator == ast.OpGT) && (antlr_GetText(ctx) == ">=" ==> as(old(thisListener.Stack.top.value), *ast.Expression).Operator == ast.OpGTE) && (antlr_GetText(ctx) == "==" ==> as(old(thisListener.Stack.top.value), *ast.Expression).Operator == ast.OpEq) && (antlr_GetText(ctx) == "!=" ==> as(old(thisListener.Stack.top.value), *ast.Expression).Operator == ast.OpNEq)
 //@ func (thisListener *GruleV3ParserListener) ExitComparisonOperator(ctx) ()
 //@   serves C17 C20
 //@   opt alloc=1
@@ -474,7 +481,7 @@ package antlr
 //@   ensures sticky: old(thisListener.StopParse) ==> thisListener.StopParse
 //@   ensures rules: RInv(thisListener) && (old(thisListener.Grl) != nil ==> thisListener.Grl != nil)
 //@ func (thisListener *GruleV3ParserListener) EnterAndLogicOperator(ctx) ()
-//@   serves C17 C20
+//@   serves C17 C20 C05
 //@   opt alloc=1
 //@   requires LInv(thisListener) && RInv(thisListener) && ctx != nil
 //@   nopanic
@@ -483,6 +490,7 @@ package antlr
 //@   ensures errorskept: errorsKept(thisListener)
 //@   ensures sticky: old(thisListener.StopParse) ==> thisListener.StopParse
 //@   ensures rules: RInv(thisListener) && (old(thisListener.Grl) != nil ==> thisListener.Grl != nil)
+//@   ensures[C05,C17] optable: !old(thisListener.StopParse) && old(thisListener.Stack.length) > 0 && old(thisListener.Stack.top.value) != nil && typeof(old(thisListener.Stack.top.value)) == typeid(*ast.Expression) ==> as(old(thisListener.Stack.top.value), *ast.Expression).Operator == ast.OpAnd
 //@ func (thisListener *GruleV3ParserListener) ExitAndLogicOperator(ctx) ()
 //@   serves C17 C20
 //@   opt alloc=1
@@ -494,7 +502,7 @@ package antlr
 //@   ensures sticky: old(thisListener.StopParse) ==> thisListener.StopParse
 //@   ensures rules: RInv(thisListener) && (old(thisListener.Grl) != nil ==> thisListener.Grl != nil)
 //@ func (thisListener *GruleV3ParserListener) EnterOrLogicOperator(ctx) ()
-//@   serves C17 C20
+//@   serves C17 C20 C05
 //@   opt alloc=1
 //@   requires LInv(thisListener) && RInv(thisListener) && ctx != nil
 //@   nopanic
@@ -503,6 +511,7 @@ package antlr
 //@   ensures errorskept: errorsKept(thisListener)
 //@   ensures sticky: old(thisListener.StopParse) ==> thisListener.StopParse
 //@   ensures rules: RInv(thisListener) && (old(thisListener.Grl) != nil ==> thisListener.Grl != nil)
+//@   ensures[C05,C17] optable: !old(thisListener.StopParse) && old(thisListener.Stack.length) > 0 && old(thisListener.Stack.top.value) != nil && typeof(old(thisListener.Stack.top.value)) == typeid(*ast.Expression) ==> as(old(thisListener.Stack.top.value), *ast.Expression).Operator == ast.OpOr
 //@ func (thisListener *GruleV3ParserListener) ExitOrLogicOperator(ctx) ()
 //@   serves C17 C20
 //@   opt alloc=1
@@ -678,7 +687,7 @@ package antlr
 //@   ensures sticky: old(thisListener.StopParse) ==> thisListener.StopParse
 //@   ensures rules: RInv(thisListener) && (old(thisListener.Grl) != nil ==> thisListener.Grl != nil)
 //@ func (thisListener *GruleV3ParserListener) ExitBooleanLiteral(ctx) ()
-//@   serves C17 C20
+//@   serves C17 C20 C05
 //@   opt alloc=1
 //@   requires LInv(thisListener) && RInv(thisListener) && ctx != nil
 //@   nopanic
@@ -687,6 +696,7 @@ package antlr
 //@   ensures errorskept: errorsKept(thisListener)
 //@   ensures sticky: old(thisListener.StopParse) ==> thisListener.StopParse
 //@   ensures rules: RInv(thisListener) && (old(thisListener.Grl) != nil ==> thisListener.Grl != nil)
+//@   ensures[C05,C17] literalvalue: old(thisListener.Stack.length) > 0 && old(thisListener.Stack.top.value) != nil && typeof(old(thisListener.Stack.top.value)) == typeid(*ast.Constant) && !old(thisListener.StopParse) ==> as(old(thisListener.Stack.top.value), *ast.Constant).Value.kind == 1 && as(old(thisListener.Stack.top.value), *ast.Constant).Value.b == (str_lower(antlr_GetText(ctx)) == "true")
 //@ func (thisListener *GruleV3ParserListener) EnterIntegerLiteral(ctx) ()
 //@   serves C17 C20
 //@   opt alloc=1
@@ -698,7 +708,7 @@ package antlr
 //@   ensures sticky: old(thisListener.StopParse) ==> thisListener.StopParse
 //@   ensures rules: RInv(thisListener) && (old(thisListener.Grl) != nil ==> thisListener.Grl != nil)
 //@ func (thisListener *GruleV3ParserListener) ExitIntegerLiteral(ctx) ()
-//@   serves C17 C20
+//@   serves C17 C20 C05
 //@   opt alloc=1
 //@   requires LInv(thisListener) && RInv(thisListener) && ctx != nil
 //@   nopanic
@@ -707,6 +717,7 @@ package antlr
 //@   ensures errorskept: errorsKept(thisListener)
 //@   ensures sticky: old(thisListener.StopParse) ==> thisListener.StopParse
 //@   ensures rules: RInv(thisListener) && (old(thisListener.Grl) != nil ==> thisListener.Grl != nil)
+//@   ensures[C05,C17] literalkind: fnok_ParseInt(antlr_GetText(ctx), 0, 64) && old(thisListener.Stack.length) > 0 && old(thisListener.Stack.top.value) != nil && typeof(old(thisListener.Stack.top.value)) == typeid(*ast.Constant) ==> as(old(thisListener.Stack.top.value), *ast.Constant).Value.kind == 6
 //@   ensures[C17,C20] literalerr: !fnok_ParseInt(antlr_GetText(ctx), 0, 64) ==> thisListener.StopParse && len(thisListener.ErrorCallback.Errors) > old(len(thisListener.ErrorCallback.Errors))
 //@ func (thisListener *GruleV3ParserListener) EnterFloatLiteral(ctx) ()
 //@   serves C17 C20
@@ -719,7 +730,7 @@ package antlr
 //@   ensures sticky: old(thisListener.StopParse) ==> thisListener.StopParse
 //@   ensures rules: RInv(thisListener) && (old(thisListener.Grl) != nil ==> thisListener.Grl != nil)
 //@ func (thisListener *GruleV3ParserListener) ExitFloatLiteral(ctx) ()
-//@   serves C17 C20
+//@   serves C17 C20 C05
 //@   opt alloc=1
 //@   requires LInv(thisListener) && RInv(thisListener) && ctx != nil
 //@   nopanic
@@ -728,4 +739,5 @@ package antlr
 //@   ensures errorskept: errorsKept(thisListener)
 //@   ensures sticky: old(thisListener.StopParse) ==> thisListener.StopParse
 //@   ensures rules: RInv(thisListener) && (old(thisListener.Grl) != nil ==> thisListener.Grl != nil)
+//@   ensures[C05,C17] literalvalue: fnok_ParseFloat(antlr_GetText(ctx), 64) && old(thisListener.Stack.length) > 0 && old(thisListener.Stack.top.value) != nil && typeof(old(thisListener.Stack.top.value)) == typeid(*ast.Constant) ==> as(old(thisListener.Stack.top.value), *ast.Constant).Value.kind == 14 && as(old(thisListener.Stack.top.value), *ast.Constant).Value.f == fn_ParseFloat_0(antlr_GetText(ctx), 64)
 //@   ensures[C17,C20] literalerr: !fnok_ParseFloat(antlr_GetText(ctx), 64) ==> thisListener.StopParse && len(thisListener.ErrorCallback.Errors) > old(len(thisListener.ErrorCallback.Errors))
